@@ -97,7 +97,30 @@ def gen_lex(tools):
     return [write("Gen/LexTables.v", "\n".join(out))]
 
 
-GENERATORS = {"lex": gen_lex}
+# ------------------------------------------------------------------ IR enumerations
+
+IR_ENUM_FILES = ["ir/ir.go", "ir/expression.go", "ir/statement.go"]
+
+
+def gen_irenums(tools):
+    res = extract(tools, [{"kind": "consts", "file": f} for f in IR_ENUM_FILES])
+    by_type = {}
+    for consts in res:
+        for n, v, t in consts:
+            if t and v.lstrip("-").isdigit():
+                by_type.setdefault(t, []).append((int(v), n))
+    out = ["From Coq Require Import List ZArith String.", "Import ListNotations.", "Open Scope Z_scope.", "Open Scope string_scope.", "",
+           "(* every named integer constant of package ir, grouped by its Go type: (value, name) *)",
+           "Definition ir_enums : list (string * list (Z * string)) := ["]
+    rows = []
+    for t in sorted(by_type):
+        rows.append("  (%s, [%s])" % (coq_string(t), "; ".join("(%d, %s)" % (v, coq_string(n)) for v, n in sorted(by_type[t]))))
+    out.append(";\n".join(rows))
+    out.append("].")
+    return [write("Gen/IrEnums.v", "\n".join(out) + "\n")]
+
+
+GENERATORS = {"lex": gen_lex, "irenums": gen_irenums}
 
 
 def regenerate(tools, names):
